@@ -116,8 +116,8 @@ def random_walk(rng, exprs, n_cmds, commands):
             ops += OBS
             continue
         elif x < 0.88:
-            ops.append({"op": "nav_key", "key": rng.choice([37, 38, 39, 40, 13, 32, 36, 35, 8, 48, 49, 50]), "shift": rng.random() < 0.3,
-                        "ctrl": rng.random() < 0.3, "alt": False, "meta": False})
+            ops.append({"op": "nav_key", "key": rng.choice([37, 38, 39, 40, 13, 32, 36, 35, 8, 27, 48, 49, 50]), "shift": rng.random() < 0.3,
+                        "ctrl": rng.random() < 0.3, "alt": rng.random() < 0.1, "meta": False})
             ops += OBS
             continue
         else:
@@ -216,20 +216,23 @@ def first_id(xml):
     return m.group(1) if m else ""
 
 
+KEYTABLE = {}        # filled from Keys.tla by run() / replay()
+
+
 def project(script, res):
     """Results of one session -> trace events (one per set_mathml / command / set_navigation_node)."""
     ops, rs = script["ops"], res["results"]
     i = 0
     cur_root, before = "", ["", 0]
     events = [{"k": "session", "cls": "", "name": "", "idx": 0, "res": "ok", "nodes": [], "root": "", "before": before,
-               "after": before, "want": before, "navOk": 1, "depthP": 0, "depthC": 0, "markers": []}]
+               "after": before, "want": before, "navOk": 1, "depthP": 0, "depthC": 0, "markers": [], "viaKey": 0}]
     info = [0]
     while i < len(ops):
         op = ops[i]
         if op["op"] in ("set_mathml", "nav_cmd", "set_nav_node", "nav_key") and i + 3 < len(ops) + 0 and ops[i + 1]["op"] == "nav_id":
             r, rid, rml, rst = rs[i], rs[i + 1], rs[i + 2], rs[i + 3]
             e = {"k": "cmd", "cls": "", "name": "", "idx": 0, "res": r["r"], "nodes": [], "root": cur_root, "before": before,
-                 "after": ["", 0], "want": ["", 0], "navOk": 0, "depthP": -1, "depthC": -1, "markers": []}
+                 "after": ["", 0], "want": ["", 0], "navOk": 0, "depthP": -1, "depthC": -1, "markers": [], "viaKey": 0}
             if rid["r"] == "ok":
                 e["after"] = [rid["v"][0], rid["v"][1]]
             if rml["r"] == "ok" and first_id(rml["v"][0]) == e["after"][0] and rml["v"][1] == e["after"][1]:
@@ -251,6 +254,10 @@ def project(script, res):
                 e["want"] = e["after"] if r["r"] == "ok" else ["", 0]
             elif op["op"] == "nav_key":
                 e["cls"], e["name"] = "Key", f"key{op['key']}"
+                # the command Keys.tla's table names for this key and these modifiers (refused / "Error" combinations stay "Key")
+                ent = KEYTABLE.get((op["key"], op["shift"], op["ctrl"], op["alt"], op["meta"]))
+                if ent and ent[0] not in ("bail", "Error"):
+                    e["cls"], e["name"], e["idx"], e["viaKey"] = cmd_class(ent[0]), ent[0], cmd_idx(ent[0]), 1
             else:
                 e["cls"], e["name"], e["idx"] = cmd_class(op["cmd"]), op["cmd"], cmd_idx(op["cmd"])
             events.append(e)
@@ -271,6 +278,8 @@ def run(tier):
     m1 = C.tlc_model_check("MC_Nav", "MC_Nav_intended.cfg" if tier == "quick" else "MC_Nav_thorough.cfg", wd, workers=8,
                            timeout=900, required_actions=("SetMathML", "Move", "MoveTo", "Undo", "ReadOnly", "SetPlacemarker", "SetNavNode"))
     suspects = suspect_histories(wd)
+    import keys
+    KEYTABLE.update(keys.model(wd)[1])
     # ---- M2: behaviours of the model
     nsim = 60 if tier == "quick" else 1500
     sim = C.run_tlc("MC_NavSim", "MC_Nav_sim.cfg", wd, workers=1, simulate=nsim, depth=25, seed_=C.seed(), coverage=False, timeout=600)
@@ -361,6 +370,7 @@ def run(tier):
     # cross-subsystem walks judged against the umbrella specification (Session.tla); this property's clauses only
     import sessionwalk
     sw = sessionwalk.stage(PID, wd, tier, verdict)
+    sw.update(keys.stage(PID, wd, tier, verdict))
     rc = verdict.finish(wd)
     moved = sum(1 for e in events if e["k"] == "cmd" and e["after"] != e["before"])
     kinds = {}
@@ -391,7 +401,7 @@ def run(tier):
 def selftest(tier):
     wd = C.workdir("c11_self")
     base = {"k": "cmd", "cls": "Move", "name": "MoveNext", "idx": 0, "res": "ok", "nodes": [], "root": "r", "before": ["r", 0],
-            "after": ["a", 0], "want": ["", 0], "navOk": 1, "depthP": 2, "depthC": 2, "markers": []}
+            "after": ["a", 0], "want": ["", 0], "navOk": 1, "depthP": 2, "depthC": 2, "markers": [], "viaKey": 0}
     setev = dict(base, k="set", cls="", name="", nodes=["r", "a", "b"], after=["r", 0], depthP=0, depthC=0)
     good = [setev, base, dict(base, cls="Read", name="ReadCurrent", before=["a", 0])]
     rej, _, _ = C.validate_trace("Trace_Nav", "Trace_Nav.cfg", good, wd)
@@ -401,6 +411,13 @@ def selftest(tier):
     rej, _, _ = C.validate_trace("Trace_Nav", "Trace_Nav.cfg", bad, wd)
     if [i for i, _ in rej] != [2, 3]:
         raise C.ToolError(f"selftest: corrupted trace not rejected as expected: {rej}")
+    # a key press classified by the table: a read-only key that moved is drift, a position outside the expression is a rejection
+    viakey = [setev, dict(base, cls="Read", name="ReadNext", viaKey=1), dict(base, cls="Read", name="ReadNext", viaKey=1, before=["a", 0], after=["zz", 0])]
+    rej, dr, _ = C.validate_trace("Trace_Nav", "Trace_Nav.cfg", viakey, wd)
+    if [i for i, _ in rej] != [3] or [i for i, _ in dr] != [2]:
+        raise C.ToolError(f"selftest: key-press events not judged as expected: {rej} {dr}")
+    import keys
+    keys.selftest(wd)
     C.log("[C11] selftest ok")
     return 0
 
@@ -408,6 +425,8 @@ def selftest(tier):
 def replay(path):
     rp = json.load(open(path))["replay"]
     wd = C.workdir("c11_replay")
+    import keys
+    KEYTABLE.update(keys.model(wd)[1])
     s = {"id": "replay", "ops": rp["script"], "prefs": rp.get("prefs", {})}
     res = C.run_mcv([s], wd, threads=1)
     evs, _ = project(s, res[0])
